@@ -1,6 +1,6 @@
 (* Proofs about Model/Acl.v (property C05). *)
 From Coq Require Import ZArith List Bool Lia ZifyBool.
-From BV Require Import Model.Acl.
+From BV Require Import Model.Acl Model.DataQueue Proofs.DataQueue.
 Import ListNotations.
 Open Scope Z_scope.
 
@@ -40,15 +40,16 @@ Proof.
   - destruct l; [|cbn in Hl; lia]. exists []. cbn. repeat split; constructor.
   - destruct l as [|x l'].
     + exists []. cbn. repeat split; constructor.
-    + remember (x :: l') as l eqn:El.
-      assert (Hne : (1 <= length l)%nat) by (subst l; cbn; lia).
-      destruct (IH (skipn m l)) as (cs & Hc & Hcat & Hall & Hfull).
+    + assert (Hne : (1 <= length (x :: l'))%nat) by (cbn [length]; lia).
+      destruct (IH (skipn m (x :: l'))) as (cs & Hc & Hcat & Hall & Hfull).
       { rewrite skipn_length. lia. }
+      assert (Hch : chunks (S f) m (x :: l') = Some (firstn m (x :: l') :: cs)).
+      { cbn [chunks]. rewrite Hc. reflexivity. }
+      set (l := x :: l') in *. clearbody l.
       exists (firstn m l :: cs).
       assert (Hf : (1 <= length (firstn m l) <= m)%nat) by (rewrite firstn_length; lia).
       split; [|split; [|split]].
-      * subst l. cbn [chunks]. rewrite <- El at 1. rewrite El in Hc. cbn [chunks] in *.
-        rewrite Hc. reflexivity.
+      * exact Hch.
       * cbn [concat]. rewrite Hcat. apply firstn_skipn.
       * constructor; assumption.
       * cbn [full_but_last]. destruct cs as [|c2 r2]; [exact Hf|].
@@ -119,9 +120,9 @@ Proof.
   - destruct cs as [|c r]; [exact I|]. rewrite mark_frags_eq. cbn. split; [reflexivity|].
     apply Forall_forall. intros q Hq. apply in_map_iff in Hq. destruct Hq as (c' & <- & _). reflexivity.
   - intros E. destruct cs; [subst; reflexivity|discriminate].
-  - intros E. subst sdu. destruct cs as [|c r]; [reflexivity|].
-    inversion Hall as [|? ? Hc _]; subst. cbn [concat] in Hcat.
-    destruct c; [cbn in Hc; lia|discriminate].
+  - intros E. destruct cs as [|c r]; [reflexivity|]. exfalso.
+    rewrite E in Hcat. cbn [concat] in Hcat. apply app_eq_nil in Hcat. destruct Hcat as [Hc0 _].
+    inversion Hall as [|? ? Hc _]. rewrite Hc0 in Hc. cbn [length] in Hc. lia.
 Qed.
 
 (* range(0, len, 0) raises *)
@@ -191,7 +192,7 @@ Proof.
     cbn [asm_run]. rewrite feed_cont_partial by exact Hc.
     rewrite (IH (cur ++ c) l) by (congruence || exact Hlt).
     cbn [concat]. rewrite <- app_assoc.
-    destruct (asm_check (cur ++ c ++ concat (c' :: r')) l). reflexivity.
+    destruct (asm_check _ l). reflexivity.
 Qed.
 
 (* a start fragment that carries the length field overwrites whatever state there was *)
@@ -210,7 +211,8 @@ Lemma one_sequence s h pb b0 b1 rest r :
   (r <> [] -> blen (c0 ++ concat (removelast r)) < l + 4) ->
   asm_run s (start h pb c0 :: map (cont h) r) = asm_check (c0 ++ concat r) l.
 Proof.
-  intros Hpb c0 l Hlt. cbn [asm_run]. rewrite feed_start by exact Hpb. fold c0. fold l.
+  intros Hpb c0 l Hlt. subst c0 l. cbn [asm_run]. rewrite feed_start by exact Hpb.
+  set (c0 := b0 :: b1 :: rest) in *. set (l := rd16 b0 b1) in *.
   destruct r as [|c r'].
   - cbn [map asm_run concat]. rewrite app_nil_r. destruct (asm_check c0 l). rewrite app_nil_r. reflexivity.
   - specialize (Hlt ltac:(congruence)).
@@ -233,11 +235,10 @@ Lemma concat_removelast_lt (cs : list bytes) :
   cs <> [] -> Forall (fun c => (1 <= length c)%nat) cs ->
   blen (concat (removelast cs)) < blen (concat cs).
 Proof.
-  intros Hne Hall. rewrite (app_removelast_last [] Hne) at 2.
-  rewrite concat_app, blen_app. cbn [concat]. rewrite app_nil_r.
-  assert (Hin : In (last cs []) cs).
-  { rewrite (app_removelast_last [] Hne) at 2. apply in_or_app. right. left. reflexivity. }
-  rewrite Forall_forall in Hall. specialize (Hall _ Hin). unfold blen. lia.
+  intros Hne Hall. destruct (exists_last Hne) as (a & b & ->).
+  rewrite removelast_last. rewrite concat_app, blen_app. cbn [concat]. rewrite app_nil_r.
+  rewrite Forall_forall in Hall. specialize (Hall b ltac:(apply in_or_app; right; left; reflexivity)).
+  unfold blen. lia.
 Qed.
 
 (* RESYNC, single PDU: from ANY assembler state the fragments of a well-formed PDU, cut by
@@ -267,7 +268,7 @@ Proof.
   - exact Hpb.
   - intros Hr. rewrite <- Hwf, <- Hcat. cbn [concat]. rewrite !blen_app.
     inversion Hall as [|? ? _ Hall']; subst.
-    assert (blen (concat (removelast r)) < blen (concat r)); [|lia].
+    assert (blen (concat (removelast r)) < blen (concat r)); [|unfold bytes in *; lia].
     apply concat_removelast_lt; [exact Hr|].
     eapply Forall_impl; [|exact Hall']. cbn. intros; lia.
 Qed.
@@ -314,15 +315,15 @@ Proof.
   induction items as [|i r IH]; intros s Hwf.
   - cbn. split; [reflexivity|congruence].
   - inversion Hwf as [|? ? (Hm & Hpb & Hp) Hr]; subst.
-    cbn [flat_map]. unfold item_packets at 1.
     destruct (fragment_spec (it_h i) (it_pb i) (it_m i) (it_pdu i) ltac:(lia)) as (ps & Hf & _).
-    rewrite Hf. rewrite <- app_assoc. rewrite asm_run_app.
     destruct (asm_run s (it_junk i)) as [s1 o1] eqn:Ej.
-    rewrite asm_run_app. rewrite (asm_fragment s1 _ _ _ _ ps Hm Hpb Hp Hf).
     destruct (IH asm_init Hr) as [IHd IHs].
     destruct (asm_run asm_init (flat_map item_packets r)) as [s3 o3] eqn:Er.
-    cbn [fst snd] in *. split.
-    + rewrite !deliveries_app. cbn [deliveries stream_spec snd app]. rewrite IHd. reflexivity.
+    assert (Hrun : asm_run s (flat_map item_packets (i :: r)) = (s3, o1 ++ [Deliver (it_pdu i)] ++ o3)).
+    { cbn [flat_map]. unfold item_packets at 1. rewrite Hf. rewrite <- app_assoc. rewrite asm_run_app, Ej.
+      rewrite asm_run_app. rewrite (asm_fragment s1 _ _ _ _ ps Hm Hpb Hp Hf). rewrite Er. reflexivity. }
+    rewrite Hrun. cbn [fst snd] in *. split.
+    + rewrite !deliveries_app. cbn [deliveries stream_spec snd app]. rewrite Ej. cbn [snd]. rewrite IHd. reflexivity.
     + intros _. destruct r as [|i2 r2]; [cbn in Er; inversion Er; reflexivity|].
       apply IHs. congruence.
 Qed.
@@ -342,8 +343,8 @@ Theorem asm_sequence h pb m pdus s :
   deliveries (snd (asm_run s (flat_map item_packets (map (clean h pb m) pdus)))) = pdus.
 Proof.
   intros Hm Hpb Hwf.
-  rewrite (proj1 (asm_stream (map (clean h pb m) pdus) s _)).
-  - apply stream_spec_clean.
+  assert (Hi : Forall item_wf (map (clean h pb m) pdus)).
+  2:{ rewrite (proj1 (asm_stream (map (clean h pb m) pdus) s Hi)). apply stream_spec_clean. }
   - apply Forall_forall. intros i Hi. apply in_map_iff in Hi. destruct Hi as (p & <- & Hin).
     rewrite Forall_forall in Hwf. unfold item_wf, clean. cbn. auto.
 Qed.
@@ -380,9 +381,10 @@ Theorem overflow_costs_one_pdu s h pb b0 b1 rest r more :
   asm_run s (start h pb c0 :: map (cont h) r ++ more) =
   (asm_init, Overflow :: map (fun _ => ContNoStart) more).
 Proof.
-  intros Hpb c0 Hlt Hgt Hmore.
-  change (start h pb c0 :: map (cont h) r ++ more) with ((start h pb c0 :: map (cont h) r) ++ more).
-  rewrite asm_run_app. rewrite one_sequence by assumption. fold c0.
+  intros Hpb c0 Hlt Hgt Hmore. subst c0.
+  change (start h pb (b0 :: b1 :: rest) :: map (cont h) r ++ more)
+    with ((start h pb (b0 :: b1 :: rest) :: map (cont h) r) ++ more).
+  rewrite asm_run_app. rewrite one_sequence by assumption.
   rewrite asm_check_gt by exact Hgt.
   unfold asm_init. rewrite conts_without_start by exact Hmore. reflexivity.
 Qed.
@@ -395,10 +397,10 @@ Theorem truncated_then_next s h pb b0 b1 rest r h' pb' m pdu ps :
   2 <= m -> pb' = 0 \/ pb' = 2 -> pdu_wf pdu -> fragment h' pb' m pdu = Some ps ->
   asm_run s ((start h pb c0 :: map (cont h) r) ++ ps) = (asm_init, [Deliver pdu]).
 Proof.
-  intros Hpb c0 Hlt Hm Hpb' Hwf Hf. rewrite asm_run_app. rewrite one_sequence; [|exact Hpb|].
-  - fold c0. rewrite asm_check_lt by exact Hlt.
+  intros Hpb c0 Hlt Hm Hpb' Hwf Hf. subst c0. rewrite asm_run_app. rewrite one_sequence; [|exact Hpb|].
+  - rewrite asm_check_lt by exact Hlt.
     rewrite (asm_fragment _ h' pb' m pdu ps Hm Hpb' Hwf Hf). reflexivity.
-  - intros Hr. fold c0.
+  - intros Hr.
     assert (blen (concat (removelast r)) <= blen (concat r)).
     { rewrite (app_removelast_last [] Hr) at 2. rewrite concat_app, blen_app.
       pose proof (blen_nonneg (concat [last r []])). lia. }
@@ -425,4 +427,464 @@ Proof.
     + destruct (fst s).
       * eapply Hne; exact H.
       * inversion H; subst. destruct Ho as [(d & [Hd|[]])|[Hd|[]]]; discriminate.
+Qed.
+
+(* ------------------------------------------------------------------ L2CAP basic header *)
+Lemma Z2Nat_blen (p : bytes) : Z.to_nat (blen p) = length p.
+Proof. unfold blen. apply Nat2Z.id. Qed.
+
+Theorem l2cap_roundtrip cid payload b :
+  l2cap_to_bytes cid payload = Some b ->
+  l2cap_from_bytes b = Some (cid, payload) /\ pdu_wf b /\ blen b = blen payload + 4.
+Proof.
+  unfold l2cap_to_bytes. destruct (u16_ok (blen payload) && u16_ok cid) eqn:E; [|discriminate].
+  intros H. inversion H; subst b. clear H.
+  pose proof (rd16_le16 (blen payload)) as Hl. pose proof (rd16_le16 cid) as Hc.
+  unfold le16 in *. cbn [app]. cbn [l2cap_from_bytes pdu_wf]. rewrite Hl, Hc.
+  rewrite Z2Nat_blen, firstn_all. repeat split.
+  - unfold blen. cbn [length]. lia.
+  - unfold blen. cbn [length]. lia.
+Qed.
+
+Lemma l2cap_to_bytes_some cid payload :
+  blen payload <= 65535 -> 0 <= cid <= 65535 -> exists b, l2cap_to_bytes cid payload = Some b.
+Proof.
+  intros Hp Hc. unfold l2cap_to_bytes.
+  assert (u16_ok (blen payload) && u16_ok cid = true) as ->.
+  { pose proof (blen_nonneg payload). unfold u16_ok. lia. }
+  eexists; reflexivity.
+Qed.
+
+(* struct.pack('<HH') refuses what does not fit: nothing is sent *)
+Lemma l2cap_to_bytes_none cid payload :
+  blen payload > 65535 \/ cid < 0 \/ cid > 65535 -> l2cap_to_bytes cid payload = None.
+Proof.
+  intros H. unfold l2cap_to_bytes.
+  assert (u16_ok (blen payload) && u16_ok cid = false) as ->; [|reflexivity].
+  unfold u16_ok. lia.
+Qed.
+
+(* with FCS: the receiver's from_bytes sees payload ++ FCS (the channel strips it) *)
+Theorem l2cap_fcs_roundtrip cid payload b :
+  l2cap_to_bytes_fcs cid payload = Some b ->
+  exists f0 f1, l2cap_from_bytes b = Some (cid, payload ++ [f0; f1]) /\ pdu_wf b /\
+                [f0; f1] = le16 (crc16 (le16 (blen payload + 2) ++ le16 cid ++ payload)).
+Proof.
+  unfold l2cap_to_bytes_fcs. destruct (u16_ok (blen payload + 2) && u16_ok cid) eqn:E; [|discriminate].
+  set (body := le16 (blen payload + 2) ++ le16 cid ++ payload).
+  destruct (u16_ok (crc16 body)) eqn:Ec; [|discriminate].
+  intros H. inversion H; subst b. clear H.
+  pose proof (rd16_le16 (blen payload + 2)) as Hl. pose proof (rd16_le16 cid) as Hc.
+  pose proof (rd16_le16 (crc16 body)) as Hf.
+  exists (crc16 body mod 256), (crc16 body / 256).
+  unfold le16 in Hl, Hc, Hf.
+  assert (Hb : body = (blen payload + 2) mod 256 :: (blen payload + 2) / 256 :: cid mod 256 :: cid / 256 :: payload)
+    by reflexivity.
+  split; [|split].
+  - rewrite Hb. unfold le16 at 1. cbn [app l2cap_from_bytes]. rewrite Hl, Hc. f_equal. f_equal.
+    replace (Z.to_nat (blen payload + 2)) with (length (payload ++ [crc16 body mod 256; crc16 body / 256])).
+    + apply firstn_all.
+    + rewrite app_length. cbn [length]. unfold blen. lia.
+  - rewrite Hb. unfold le16 at 1. cbn [app pdu_wf]. rewrite Hl. unfold blen. cbn [length].
+    rewrite app_length. cbn [length]. lia.
+  - reflexivity.
+Qed.
+
+(* ------------------------------------------------------------------ HCI ACL header bit fields *)
+Definition zrange (n : nat) : list Z := map Z.of_nat (seq 0 n).
+
+Lemma in_zrange n x : 0 <= x < Z.of_nat n -> In x (zrange n).
+Proof.
+  intros H. unfold zrange. apply in_map_iff. exists (Z.to_nat x). split; [lia|].
+  apply in_seq. lia.
+Qed.
+
+Definition hdr_case_ok (h pb bc : Z) : bool :=
+  let x := acl_hdr h pb bc in
+  u16_ok x && (Z.land x 4095 =? h) && (Z.land (Z.shiftr x 12) 3 =? pb) && (Z.land (Z.shiftr x 14) 3 =? bc).
+
+(* complete evaluation: all 4096 x 4 x 4 headers *)
+Lemma hdr_all_ok :
+  forallb (fun h => forallb (fun pb => forallb (fun bc => hdr_case_ok h pb bc) (zrange 4)) (zrange 4))
+          (zrange 4096) = true.
+Proof. vm_compute. reflexivity. Qed.
+
+Lemma hdr_ok h pb bc : 0 <= h < 4096 -> 0 <= pb < 4 -> 0 <= bc < 4 -> hdr_case_ok h pb bc = true.
+Proof.
+  intros Hh Hpb Hbc. pose proof hdr_all_ok as H.
+  rewrite forallb_forall in H. specialize (H h (in_zrange 4096 h ltac:(lia))).
+  rewrite forallb_forall in H. specialize (H pb (in_zrange 4 pb ltac:(lia))).
+  rewrite forallb_forall in H. exact (H bc (in_zrange 4 bc ltac:(lia))).
+Qed.
+
+Definition acl_ok (p : acl) : Prop :=
+  0 <= a_handle p < 4096 /\ 0 <= a_pb p < 4 /\ 0 <= a_bc p < 4 /\
+  a_len p = blen (a_data p) /\ blen (a_data p) <= 65535.
+
+(* a packet with in-range fields survives serialisation and parsing *)
+Theorem acl_wire_roundtrip p : acl_ok p ->
+  exists b, acl_to_bytes p = Some b /\ acl_from_bytes b = Some p.
+Proof.
+  intros (Hh & Hpb & Hbc & Hlen & Hmax). destruct p as [h pb bc len data]. cbn [a_handle a_pb a_bc a_len a_data] in *.
+  pose proof (hdr_ok h pb bc Hh Hpb Hbc) as Hok. unfold hdr_case_ok in Hok.
+  apply andb_prop in Hok. destruct Hok as [Hok Hbcv]. apply andb_prop in Hok. destruct Hok as [Hok Hpbv].
+  apply andb_prop in Hok. destruct Hok as [Hu Hhv].
+  apply Z.eqb_eq in Hhv, Hpbv, Hbcv.
+  unfold acl_to_bytes. cbn [a_handle a_pb a_bc a_len a_data]. rewrite Hu.
+  assert (u16_ok len = true) as -> by (pose proof (blen_nonneg data); unfold u16_ok; lia).
+  cbn [andb]. eexists. split; [reflexivity|].
+  pose proof (rd16_le16 (acl_hdr h pb bc)) as H1. pose proof (rd16_le16 len) as H2.
+  unfold le16 in *. cbn [app acl_from_bytes]. rewrite H1, H2.
+  rewrite Hlen at 1. rewrite Z.eqb_refl. rewrite Hhv, Hpbv, Hbcv. reflexivity.
+Qed.
+
+Lemma wire1_id p : acl_ok p -> wire1 p = [p].
+Proof.
+  intros H. destruct (acl_wire_roundtrip p H) as (b & Hb & Hf). unfold wire1. rewrite Hb, Hf. reflexivity.
+Qed.
+
+Lemma wire_id ps : Forall acl_ok ps -> wire ps = ps.
+Proof.
+  induction 1 as [|p r Hp Hr IH]; [reflexivity|].
+  unfold wire in *. cbn [flat_map]. rewrite wire1_id by exact Hp. rewrite IH. reflexivity.
+Qed.
+
+(* data_total_length above 65535 cannot be serialised: the packet is lost (this is D05's failure) *)
+Lemma wire1_too_long p : a_len p > 65535 -> wire1 p = [].
+Proof.
+  intros H. unfold wire1, acl_to_bytes.
+  assert (u16_ok (a_len p) = false) as -> by (unfold u16_ok; lia).
+  rewrite andb_false_r. reflexivity.
+Qed.
+
+(* the packets of the fragmenter are serialisable *)
+Lemma fragment_acl_ok h pb m sdu ps :
+  0 <= h < 4096 -> 0 <= pb < 4 -> 1 <= m <= 65535 ->
+  fragment h pb m sdu = Some ps -> Forall acl_ok ps.
+Proof.
+  intros Hh Hpb Hm Hf. destruct (fragment_spec h pb m sdu ltac:(lia)) as (ps' & Hf' & _ & Hok & Hfl & _).
+  rewrite Hf in Hf'. inversion Hf'; subst ps'. clear Hf'.
+  assert (Hpbs : Forall (fun q => 0 <= a_pb q < 4) ps).
+  { destruct ps as [|p r]; [constructor|]. destruct Hfl as [Hp Hr]. constructor; [lia|].
+    eapply Forall_impl; [|exact Hr]. cbn. intros; lia. }
+  rewrite Forall_forall in *. intros q Hq. destruct (Hok q Hq) as (H1 & H2 & H3 & H4).
+  specialize (Hpbs q Hq). unfold acl_ok. repeat split; try lia.
+Qed.
+
+(* ------------------------------------------------------------------ end to end *)
+Lemma concat_opt_some {A} (f : A -> option (list acl)) (g : A -> list acl) xs :
+  (forall x, In x xs -> f x = Some (g x)) -> concat_opt (map f xs) = Some (flat_map g xs).
+Proof.
+  induction xs as [|x r IH]; intros H; [reflexivity|].
+  cbn [map concat_opt flat_map]. rewrite (H x (or_introl eq_refl)).
+  rewrite IH by (intros y Hy; apply H; right; exact Hy). reflexivity.
+Qed.
+
+(* (cid, payload) pairs that L2CAP can carry *)
+Definition sendable (cp : Z * bytes) : Prop := 0 <= fst cp <= 65535 /\ blen (snd cp) <= 65535.
+
+Definition l2bytes (cp : Z * bytes) : bytes :=
+  match l2cap_to_bytes (fst cp) (snd cp) with Some b => b | None => [] end.
+
+Lemma l2bytes_spec cp : sendable cp ->
+  l2cap_to_bytes (fst cp) (snd cp) = Some (l2bytes cp) /\ pdu_wf (l2bytes cp) /\
+  host_on_acl_pdu (l2bytes cp) = [cp].
+Proof.
+  intros [Hc Hp]. destruct (l2cap_to_bytes_some (fst cp) (snd cp) Hp Hc) as (b & Hb).
+  unfold l2bytes. rewrite Hb. destruct (l2cap_roundtrip _ _ _ Hb) as (Hf & Hwf & _).
+  repeat split; auto. unfold host_on_acl_pdu. rewrite Hf. destruct cp; reflexivity.
+Qed.
+
+Definition frags (h pb m : Z) (pdu : bytes) : list acl :=
+  match fragment h pb m pdu with Some ps => ps | None => [] end.
+
+Lemma frags_spec h pb m pdu : 1 <= m -> fragment h pb m pdu = Some (frags h pb m pdu).
+Proof. intros Hm. unfold frags. destruct (fragment_spec h pb m pdu Hm) as (ps & -> & _). reflexivity. Qed.
+
+Lemma item_packets_clean h pb m pdu : item_packets (clean h pb m pdu) = frags h pb m pdu.
+Proof. reflexivity. Qed.
+
+Lemma flat_map_clean h pb m pdus :
+  flat_map item_packets (map (clean h pb m) pdus) = flat_map (frags h pb m) pdus.
+Proof. induction pdus as [|p r IH]; [reflexivity|]. cbn [map flat_map]. rewrite IH. reflexivity. Qed.
+
+(* what the sending host emits: per PDU the fragments of its L2CAP bytes, in order *)
+Lemma host_tx_spec h m pdus : 1 <= m -> Forall sendable pdus ->
+  host_tx h m pdus = Some (flat_map (fun cp => frags h 0 m (l2bytes cp)) pdus).
+Proof.
+  intros Hm Hs. unfold host_tx. apply concat_opt_some. intros cp Hin.
+  rewrite Forall_forall in Hs. destruct (l2bytes_spec cp (Hs cp Hin)) as (Hb & _).
+  unfold send_l2cap_pdu. rewrite Hb. cbn [send_acl_sdu]. apply frags_spec. exact Hm.
+Qed.
+
+Lemma flat_map_frags_ok h pb m pdus :
+  0 <= h < 4096 -> 0 <= pb < 4 -> 1 <= m <= 65535 -> Forall acl_ok (flat_map (frags h pb m) pdus).
+Proof.
+  intros Hh Hpb Hm. induction pdus as [|p r IH]; [constructor|].
+  cbn [flat_map]. apply Forall_app. split; [|exact IH].
+  eapply fragment_acl_ok; try eassumption. apply frags_spec. lia.
+Qed.
+
+(* reassembly of a clean fragment stream, through the wire *)
+Lemma rx_clean h pb m pdus :
+  0 <= h < 4096 -> pb = 0 \/ pb = 2 -> 2 <= m <= 65535 -> Forall pdu_wf pdus ->
+  deliveries (snd (asm_run asm_init (wire (flat_map (frags h pb m) pdus)))) = pdus.
+Proof.
+  intros Hh Hpb Hm Hwf. rewrite wire_id by (apply flat_map_frags_ok; lia).
+  rewrite <- flat_map_clean. apply asm_sequence; [lia|exact Hpb|exact Hwf].
+Qed.
+
+Lemma flat_map_map {A B C} (f : A -> B) (g : B -> list C) xs :
+  flat_map g (map f xs) = flat_map (fun x => g (f x)) xs.
+Proof. induction xs as [|x r IH]; [reflexivity|]. cbn [map flat_map]. rewrite IH. reflexivity. Qed.
+
+(* END TO END: any list of sendable PDUs, any fragment sizes 2..65535 on either side, any
+   handles: the receiving host's L2CAP layer sees exactly the PDUs sent, once each, in order *)
+Theorem relay_intact hA mA hB mB pdus :
+  0 <= hA < 4096 -> 0 <= hB < 4096 -> 2 <= mA <= 65535 -> 2 <= mB <= 65535 ->
+  Forall sendable pdus ->
+  relay hA mA hB mB pdus = Some pdus.
+Proof.
+  intros HhA HhB HmA HmB Hs. unfold relay.
+  rewrite host_tx_spec by (lia || exact Hs).
+  assert (Hwf : Forall pdu_wf (map l2bytes pdus)).
+  { apply Forall_forall. intros b Hb. apply in_map_iff in Hb. destruct Hb as (cp & <- & Hin).
+    rewrite Forall_forall in Hs. apply (l2bytes_spec cp (Hs cp Hin)). }
+  assert (Hrx : ctrl_rx_pdus (flat_map (fun cp => frags hA 0 mA (l2bytes cp)) pdus) = map l2bytes pdus).
+  { unfold ctrl_rx_pdus. rewrite <- (flat_map_map l2bytes (frags hA 0 mA)).
+    apply rx_clean; auto. }
+  rewrite Hrx. unfold ctrl_tx.
+  rewrite (concat_opt_some (ctrl_to_host hB mB) (frags hB 2 mB)).
+  2:{ intros b _. unfold ctrl_to_host. apply frags_spec. lia. }
+  f_equal. unfold host_rx. rewrite rx_clean by auto.
+  clear Hrx Hwf. induction pdus as [|cp r IH]; [reflexivity|].
+  inversion Hs as [|? ? Hcp Hr]; subst. cbn [map flat_map].
+  rewrite (proj2 (proj2 (l2bytes_spec cp Hcp))). rewrite IH by exact Hr. reflexivity.
+Qed.
+
+(* every fragment on either HCI link fits the controller's length, is non-empty, and carries
+   the right marker (0 then 1 from the host, 2 then 1 from the controller) *)
+Theorem relay_fragments_fit h pb m pdu :
+  1 <= m -> Forall (frag_ok h m) (frags h pb m pdu) /\ flags_ok pb (frags h pb m pdu) /\
+            concat (map a_data (frags h pb m pdu)) = pdu.
+Proof.
+  intros Hm. destruct (fragment_spec h pb m pdu Hm) as (ps & Hf & Hcat & Hok & Hfl & _).
+  unfold frags. rewrite Hf. auto.
+Qed.
+
+(* D05 as it was: the unfragmented relay loses every PDU above 65531 payload bytes *)
+Lemma relay_unfragmented_refuted :
+  relay_unfragmented 1 1021 2 [(62, pattern (Z.to_nat 65532) 7 1); (62, [1; 2; 3])] = Some [(62, [1; 2; 3])].
+Proof. vm_compute. reflexivity. Qed.
+
+(* ------------------------------------------------------------------ ISO fragmentation *)
+(* shape of the packets of one SDU: markers 10 (single) / 00 01* 11, SDU info on the first
+   fragment only, data_total_length = header + fragment *)
+Fixpoint iso_shape (first : bool) (seq total : Z) (ps : list iso) : Prop :=
+  match ps with
+  | [] => True
+  | p :: r =>
+      i_pb p = (match first, r with
+                | true, [] => 2 | true, _ :: _ => 0 | false, [] => 3 | false, _ :: _ => 1 end) /\
+      (if first
+       then i_seq p = Some seq /\ i_sdu_len p = Some total /\ i_psf p = Some 0 /\ i_len p = 4 + blen (i_frag p)
+       else i_seq p = None /\ i_sdu_len p = None /\ i_psf p = None /\ i_len p = blen (i_frag p)) /\
+      i_ts p = None /\ iso_shape false seq total r
+  end.
+
+Lemma firstn_blen_min n (l : bytes) : 0 <= n -> blen (firstn (Z.to_nat n) l) = Z.min n (blen l).
+Proof. intros Hn. unfold blen. rewrite firstn_length. lia. Qed.
+
+Lemma iso_loop_spec h maxp seq total : 4 < maxp ->
+  forall fuel rest first, (length rest <= fuel)%nat ->
+  exists ps, iso_loop fuel h maxp seq total first rest = Some ps /\
+             concat (map i_frag ps) = rest /\
+             Forall (fun p => i_handle p = h /\ 1 <= blen (i_frag p) /\ 0 <= i_len p <= maxp) ps /\
+             iso_shape first seq total ps.
+Proof.
+  intros Hmax. induction fuel as [|f IH]; intros rest first Hlen.
+  - destruct rest; [|cbn in Hlen; lia]. exists []. cbn. repeat split; constructor.
+  - destruct rest as [|x rest'].
+    + exists []. cbn. repeat split; constructor.
+    + set (l := x :: rest') in *.
+      assert (Hl : 1 <= blen l) by (unfold blen, l; cbn [length]; lia).
+      set (hl := if first then 4 else 0).
+      assert (Hhl : 0 <= hl <= 4) by (unfold hl; destruct first; lia).
+      set (n := Z.min (blen l) (maxp - hl)).
+      assert (Hn : 1 <= n <= blen l) by (unfold n; lia).
+      destruct (IH (skipn (Z.to_nat n) l) false) as (ps & Hps & Hcat & Hall & Hshape).
+      { rewrite skipn_length. unfold blen in *. lia. }
+      eexists. split; [|split; [|split]].
+      * unfold l at 1. cbn [iso_loop]. fold l. fold hl.
+        destruct (maxp <=? hl) eqn:E; [lia|]. fold n. rewrite Hps. reflexivity.
+      * cbn [map concat]. rewrite Hcat.
+        destruct first; cbn [i_frag]; apply firstn_skipn.
+      * constructor; [|exact Hall].
+        assert (Hfl : blen (firstn (Z.to_nat n) l) = n) by (rewrite firstn_blen_min; lia).
+        destruct first; cbn [i_handle i_frag i_len]; rewrite Hfl; unfold hl in *; repeat split; lia.
+      * assert (Hfl : blen (firstn (Z.to_nat n) l) = n) by (rewrite firstn_blen_min; lia).
+        (* last fragment iff nothing remains *)
+        assert (Hlast : (blen l =? n) = true <-> ps = []).
+        { split.
+          - intros E. apply Z.eqb_eq in E.
+            assert (Hs : skipn (Z.to_nat n) l = []) by (apply skipn_all2; unfold blen in *; lia).
+            rewrite Hs in Hcat. destruct ps as [|p r]; [reflexivity|]. exfalso.
+            inversion Hall as [|? ? (_ & Hp & _) _]; subst. cbn [map concat] in Hcat.
+            apply app_eq_nil in Hcat. destruct Hcat as [Hp0 _]. rewrite Hp0 in Hp. unfold blen in Hp. cbn in Hp. lia.
+          - intros ->. cbn [map concat] in Hcat. apply Z.eqb_eq.
+            assert (Hsl : length (skipn (Z.to_nat n) l) = 0%nat) by (rewrite <- Hcat; reflexivity).
+            rewrite skipn_length in Hsl. unfold blen in *. lia. }
+        destruct (blen l =? n) eqn:E.
+        -- assert (ps = []) as -> by (apply Hlast; reflexivity).
+           destruct first; cbn [iso_shape i_pb i_seq i_sdu_len i_psf i_len i_frag i_ts]; rewrite Hfl; unfold hl; repeat split.
+        -- destruct ps as [|p r]; [assert (false = true) by (apply Hlast; reflexivity); discriminate|].
+           destruct first; cbn [iso_shape i_pb i_seq i_sdu_len i_psf i_len i_frag i_ts]; rewrite Hfl; unfold hl;
+             repeat split; exact Hshape || apply Hshape.
+Qed.
+
+Lemma land_ffff x : 0 <= x -> Z.land x 65535 = x mod 65536.
+Proof. intros _. change 65535 with (Z.ones 16). rewrite Z.land_ones by lia. reflexivity. Qed.
+
+(* one SDU: fragments concatenate to the SDU; sizes; markers; SDU length; sequence number;
+   the link's counter advances by one modulo 2^16 *)
+Theorem send_iso_sdu_spec h maxp seq sdu : 4 < maxp -> 0 <= seq ->
+  exists ps, send_iso_sdu h maxp seq sdu = (Some ps, (seq + 1) mod 65536) /\
+             concat (map i_frag ps) = sdu /\
+             Forall (fun p => i_handle p = h /\ 1 <= blen (i_frag p) /\ 0 <= i_len p <= maxp) ps /\
+             iso_shape true seq (blen sdu) ps.
+Proof.
+  intros Hmax Hseq. unfold send_iso_sdu.
+  destruct (iso_loop_spec h maxp seq (blen sdu) Hmax (length sdu) sdu true (le_n _)) as (ps & -> & H).
+  exists ps. rewrite land_ffff by lia. split; [reflexivity|exact H].
+Qed.
+
+(* ISO data packet length <= 4 cannot carry the SDU header: refused, nothing sent, counter kept *)
+Lemma send_iso_sdu_refused h maxp seq x sdu : maxp <= 4 -> send_iso_sdu h maxp seq (x :: sdu) = (None, seq).
+Proof.
+  intros H. unfold send_iso_sdu. cbn [iso_loop length].
+  destruct (maxp <=? 4) eqn:E; [reflexivity|lia].
+Qed.
+
+(* sequences of SDUs: the k-th SDU carries (seq0 + k) mod 2^16 *)
+Fixpoint iso_seq_spec (h maxp seq : Z) (sdus : list bytes) (outs : list (option (list iso))) : Prop :=
+  match sdus, outs with
+  | [], [] => True
+  | s :: r, Some ps :: outs' =>
+      concat (map i_frag ps) = s /\ iso_shape true seq (blen s) ps /\
+      Forall (fun p => i_handle p = h /\ 1 <= blen (i_frag p) /\ 0 <= i_len p <= maxp) ps /\
+      iso_seq_spec h maxp ((seq + 1) mod 65536) r outs'
+  | _, _ => False
+  end.
+
+Theorem send_iso_sdus_spec h maxp : 4 < maxp -> forall sdus seq, 0 <= seq < 65536 ->
+  iso_seq_spec h maxp seq sdus (fst (send_iso_sdus h maxp seq sdus)) /\
+  snd (send_iso_sdus h maxp seq sdus) = (seq + Z.of_nat (length sdus)) mod 65536.
+Proof.
+  intros Hmax. induction sdus as [|s r IH]; intros seq Hseq.
+  - cbn. split; [exact I|]. rewrite Z.add_0_r, Z.mod_small by lia. reflexivity.
+  - cbn [send_iso_sdus].
+    destruct (send_iso_sdu_spec h maxp seq s Hmax ltac:(lia)) as (ps & -> & Hcat & Hall & Hshape).
+    assert (Hs1 : 0 <= (seq + 1) mod 65536 < 65536) by (apply Z.mod_pos_bound; lia).
+    destruct (IH ((seq + 1) mod 65536) Hs1) as [IH1 IH2].
+    destruct (send_iso_sdus h maxp ((seq + 1) mod 65536) r) as [os s2]. cbn [fst snd] in *.
+    split; [cbn [iso_seq_spec]; auto|].
+    rewrite IH2. cbn [length]. rewrite Nat2Z.inj_succ.
+    rewrite Zplus_mod_idemp_l. f_equal. lia.
+Qed.
+
+(* ISO header / SDU info bit fields: complete evaluation over handle x pb, and over the
+   12-bit SDU length *)
+Definition iso_hdr_case_ok (h pb : Z) : bool :=
+  let x := iso_hdr 0 pb h in
+  u16_ok x && (Z.land x 4095 =? h) && (Z.land (Z.shiftr x 12) 3 =? pb) && (Z.land (Z.shiftr x 14) 1 =? 0).
+Definition iso_info_case_ok (l : Z) : bool :=
+  let w := Z.lor l (Z.shiftl 0 15) in
+  u16_ok w && (Z.land w 4095 =? l) && (Z.land (Z.shiftr w 15) 1 =? 0).
+
+Lemma iso_hdr_all_ok :
+  forallb (fun h => forallb (fun pb => iso_hdr_case_ok h pb) (zrange 4)) (zrange 4096) = true.
+Proof. vm_compute. reflexivity. Qed.
+Lemma iso_info_all_ok : forallb iso_info_case_ok (zrange 4096) = true.
+Proof. vm_compute. reflexivity. Qed.
+
+Definition iso_first_ok (p : iso) : Prop :=
+  0 <= i_handle p < 4096 /\ (i_pb p = 0 \/ i_pb p = 2) /\ 0 <= i_len p <= 65535 /\ i_ts p = None /\
+  (exists s l, i_seq p = Some s /\ i_sdu_len p = Some l /\ i_psf p = Some 0 /\ 0 <= s <= 65535 /\ 0 <= l < 4096).
+Definition iso_cont_ok (p : iso) : Prop :=
+  0 <= i_handle p < 4096 /\ (i_pb p = 1 \/ i_pb p = 3) /\ 0 <= i_len p <= 65535 /\ i_ts p = None /\
+  i_seq p = None /\ i_sdu_len p = None /\ i_psf p = None.
+
+(* the packets send_iso_sdu builds survive the wire format (SDU length < 2^12, the width of
+   the field that from_bytes keeps) *)
+Theorem iso_wire_roundtrip p : iso_first_ok p \/ iso_cont_ok p ->
+  exists b, iso_to_bytes p = Some b /\ iso_from_bytes b = Some p.
+Proof.
+  intros [H|H].
+  - destruct H as (Hh & Hpb & Hlen & Hts & s & l & Hs & Hl & Hf & Hsr & Hlr).
+    destruct p as [h pb len ts sq sl psf frag]. cbn [i_handle i_pb i_len i_ts i_seq i_sdu_len i_psf] in *. subst.
+    pose proof iso_hdr_all_ok as A. rewrite forallb_forall in A. specialize (A h (in_zrange 4096 h ltac:(lia))).
+    rewrite forallb_forall in A. specialize (A pb (in_zrange 4 pb ltac:(lia))).
+    pose proof iso_info_all_ok as B. rewrite forallb_forall in B. specialize (B l (in_zrange 4096 l ltac:(lia))).
+    unfold iso_hdr_case_ok in A. unfold iso_info_case_ok in B.
+    apply andb_prop in A. destruct A as [A A4]. apply andb_prop in A. destruct A as [A A3].
+    apply andb_prop in A. destruct A as [A1 A2].
+    apply andb_prop in B. destruct B as [B B3]. apply andb_prop in B. destruct B as [B1 B2].
+    apply Z.eqb_eq in A2, A3, A4, B2, B3.
+    unfold iso_to_bytes. cbn [i_handle i_pb i_len i_ts i_seq i_sdu_len i_psf i_frag].
+    assert (u16_ok s = true) as -> by (unfold u16_ok; lia). rewrite B1, A1.
+    assert (u16_ok len = true) as -> by (unfold u16_ok; lia). cbn [andb].
+    eexists. split; [reflexivity|].
+    pose proof (rd16_le16 (iso_hdr 0 pb h)) as R1. pose proof (rd16_le16 len) as R2.
+    pose proof (rd16_le16 s) as R3. pose proof (rd16_le16 (Z.lor l (Z.shiftl 0 15))) as R4.
+    unfold le16 in *. cbn [app iso_from_bytes]. rewrite R1, A2, A3, A4. cbn [Z.eqb].
+    assert (Z.land pb 1 =? 0 = true) as -> by (destruct Hpb as [-> | ->]; reflexivity).
+    rewrite R2, R3, R4, B2, B3. reflexivity.
+  - destruct H as (Hh & Hpb & Hlen & Hts & Hs & Hl & Hf).
+    destruct p as [h pb len ts sq sl psf frag]. cbn [i_handle i_pb i_len i_ts i_seq i_sdu_len i_psf] in *. subst.
+    pose proof iso_hdr_all_ok as A. rewrite forallb_forall in A. specialize (A h (in_zrange 4096 h ltac:(lia))).
+    rewrite forallb_forall in A. specialize (A pb (in_zrange 4 pb ltac:(lia))).
+    unfold iso_hdr_case_ok in A.
+    apply andb_prop in A. destruct A as [A A4]. apply andb_prop in A. destruct A as [A A3].
+    apply andb_prop in A. destruct A as [A1 A2].
+    apply Z.eqb_eq in A2, A3, A4.
+    unfold iso_to_bytes. cbn [i_handle i_pb i_len i_ts i_seq i_sdu_len i_psf i_frag]. rewrite A1.
+    assert (u16_ok len = true) as -> by (unfold u16_ok; lia). cbn [andb].
+    eexists. split; [reflexivity|].
+    pose proof (rd16_le16 (iso_hdr 0 pb h)) as R1. pose proof (rd16_le16 len) as R2.
+    unfold le16 in *. cbn [app iso_from_bytes]. rewrite R1, A2, A3, A4. cbn [Z.eqb].
+    assert (Z.land pb 1 =? 0 = false) as -> by (destruct Hpb as [-> | ->]; reflexivity).
+    rewrite R2. reflexivity.
+Qed.
+
+(* the SDU length field keeps 12 bits only: a 4096-byte SDU reads back as length 0 *)
+Lemma iso_sdu_length_4096_refuted :
+  exists p b, iso_to_bytes p = Some b /\ i_sdu_len p = Some 4096 /\
+              option_map i_sdu_len (iso_from_bytes b) = Some (Some 0).
+Proof.
+  exists (mkIso 1 2 5 None (Some 0) (Some 4096) (Some 0) [7]). eexists.
+  split; [reflexivity|]. split; vm_compute; reflexivity.
+Qed.
+
+(* ------------------------------------------------------------------ composition with the DataPacketQueue (C04) *)
+Lemma map_nth_seq {A} (l : list A) d : map (fun i => nth i l d) (seq 0 (length l)) = l.
+Proof.
+  induction l as [|x r IH]; [reflexivity|].
+  cbn [length seq map nth]. f_equal. rewrite <- seq_shift, map_map. exact IH.
+Qed.
+
+(* The host enqueues the fragments of a connection as packets 0, 1, 2, ... (interleaved with
+   ANY other queue activity: other connections, completion reports, flushes of others).
+   Once nothing of that connection is waiting any more, what was handed to the controller for
+   it is exactly the fragment list: nothing lost, duplicated or reordered (C04 fifo theorem). *)
+Theorem queue_hands_over_fragments maxf ops h (pk : list acl) d :
+  enqueued h ops = map (fun i => (Z.of_nat i, h)) (seq 0 (length pk)) ->
+  flushes h ops = false ->
+  filter (is_handle h) (q_wait (fst (q_run (q_init maxf) ops))) = [] ->
+  map (fun ph => nth (Z.to_nat (fst ph)) pk d) (filter (is_handle h) (snd (q_run (q_init maxf) ops))) = pk.
+Proof.
+  intros Henq Hfl Hw. pose proof (fifo_per_handle h ops (q_init maxf) Hfl) as H.
+  destruct (q_run (q_init maxf) ops) as [s' sent]. cbn [fst snd] in *.
+  rewrite Hw, app_nil_r in H. cbn [q_init q_wait filter app] in H. rewrite H, Henq.
+  rewrite map_map. cbn [fst]. rewrite <- (map_nth_seq pk d) at 2.
+  apply map_ext. intros i. rewrite Nat2Z.id. reflexivity.
 Qed.
